@@ -436,3 +436,51 @@ Definition expected_bot_handle_packet : list gstmt :=
       GReturn "PacketHandlerError{ID:packetID,Err:err}" ] [] ];
     GReturn "" ].
 
+(* bot/client.go: warpConn *)
+Definition expected_bot_warp_conn : list gstmt :=
+  [
+    GOther "wc := Conn{Conn:c,send:qw,recv:qr,pool:sync.Pool{New:func() any { return []byte{} }},rerr:nil}";
+    GGo [
+    GLoop [
+      GOther "p := pk.Packet{Data:wc.pool.Get().([]byte)}";
+      GRead;
+      GIf "err != nil" [
+        GOther "wc.rerr = err";
+        GBranch "break" ] [];
+      GIf "ok := wc.recv.Push(p); !ok" [
+        GOther "wc.rerr = errors.New('receive queue is full')";
+        GBranch "break" ] [] ];
+    GOther "wc.recv.Close()" ];
+    GGo [
+    GLoop [
+      GOther "p,ok := wc.send.Pull()";
+      GIf "!ok" [
+        GBranch "break" ] [];
+      GEcho;
+      GIf "err != nil" [
+        GBranch "break" ] [] ] ];
+    GReturn "&wc" ].
+
+(* bot/client.go: Conn.ReadPacket *)
+Definition expected_bot_conn_read_packet : list gstmt :=
+  [
+    GOther "packet,ok := c.recv.Pull()";
+    GIf "!ok" [
+    GReturn "c.rerr" ] [];
+    GOther "*p = packet";
+    GReturn "nil" ].
+
+(* bot/client.go: Conn.WritePacket *)
+Definition expected_bot_conn_write_packet : list gstmt :=
+  [
+    GOther "ok := c.send.Push(p)";
+    GIf "!ok" [
+    GReturn "errors.New('queue is full')" ] [];
+    GReturn "nil" ].
+
+(* bot/client.go: Conn.Close *)
+Definition expected_bot_conn_close : list gstmt :=
+  [
+    GOther "c.send.Close()";
+    GReturn "c.Conn.Close()" ].
+
